@@ -453,16 +453,48 @@ theorem C18_overlong_interpolation_fails_all (L : Limits) (env : Env) (ml : Matc
     matchesInterpolateL L env ml msgs = none :=
   matchesInterpolateL_none_of_entry L env ml msgs msgs i mh hi (matchInterpolateL_overlong L _ ml i mh msgs hty p hp hfit)
 
-/-- **... and then nothing is done with the message** (all limits, whatever the calls return): when the rules match and
-`match_interpolate` fails for some entry `i` of the resulting list - wherever it stands in the list -, `processMessageL`
-issues no mutating call and starts no process for that message: every call is `openat(O_RDONLY)` / `read` / `close`, after
-the parse phase only `close`; the outcome is the error flag, the files, the log and the maildir unchanged.  In particular no
+/-- **... and then nothing is done with the message** (all limits, whatever the calls return): when in this run the rules
+match - the result `ev` of the evaluation program `evalPL L` (Model/LimitsWorld.lean; `command`, `isdirectory` and
+file-time `date` conditions call the operating system), run after the parse phase - and `match_interpolate` fails for some
+entry `i` of the resulting list - wherever it stands in the list -, `processMessageL` issues no mutating call: every call is
+one of the parse phase (`openat(O_RDONLY)` / `read` / `close`) or of evaluation (`Proofs.EvalCallOf expr`: `stat` only for a
+rule tree with an `isdirectory` or file-time `date` condition; `open("/dev/null")`, `fork`, `waitpid`, `close` only for one
+with a `command` condition - in particular no process is started for a tree without `command` conditions), in that order,
+and after them only `close`; the outcome is the error flag, the files, the log and the maildir unchanged.  In particular no
 call names `mh_path` (neither the intended path nor a truncation of it) and no later action of the list is executed. -/
 theorem C18_interpolation_failure_no_effect (L : Limits) (env : PEnv) (orc : EvalOracles) (expr : Expr) (md : Maildir) (name : Bytes)
     (st : MainSt) (d : Handle) (content p n : Bytes) (mf : MFlags) (i : Nat) (mh : Match) (msgs0 : Nat → Msg)
     (hd : md.dirH = some d) (hf : st.files.get md.path name = some content)
     (hp : pathjoinL L.pathMax md.path name = some p) (hn : strlcpyL L.nameMax1 name = some n)
     (hmf : flagsParse n = some mf)
+    (orcl : Nat → Call → Res) (ev : Tri × St)
+    (hrun : (Proofs.Own.runO orcl (evalPL L (Proofs.msgEnv env orc p) expr (parseMessage content) mf)
+      (Proofs.Own.runO orcl (messageParsePL L d md.path name content) 0).2.2).1 = ev)
+    (hev : ev.1 = .match)
+    (hi : ev.2.ml[i]? = some mh)
+    (hfail : matchInterpolateL L (some [(ofString "path", p)]) ev.2.ml i mh msgs0 = none) :
+    (runOracle orcl (processMessageL L env orc expr md name st) 0 []).1 = ({ st with error := true }, md) ∧
+    (∀ x ∈ (runOracle orcl (processMessageL L env orc expr md name st) 0 []).2,
+      (((∃ nm, x.1 = .openRd d nm) ∨ (∃ fd, x.1 = .read fd) ∨ ∃ fd, x.1 = .close fd) ∨ Proofs.EvalCallOf expr x.1) ∧
+        x.1.mutating = false ∧ (x.1 = .fork → Proofs.hasCommand expr = true)) ∧
+    ∃ E T, (runOracle orcl (processMessageL L env orc expr md name st) 0 []).2 =
+        (runOracle orcl (messageParsePL L d md.path name content) 0 []).2 ++ E ++ T ∧
+        (∀ x ∈ E, Proofs.EvalCallOf expr x.1) ∧ ∀ x ∈ T, ∃ fd, x.1 = .close fd := by
+  obtain ⟨tri, est⟩ := ev
+  simp only at hev hi hfail
+  subst hev
+  obtain ⟨h1, h2, h3⟩ := processMessageL_interp_error_run L env orc expr md name st d content p n mf est hd hf hp hn hmf orcl hrun
+      (matchesInterpolateL_none_of_entry L (Proofs.msgEnv env orc p) est.ml _ msgs0 i mh hi hfail)
+  exact ⟨h1, fun x hx => ⟨(h2 x hx).1, (h2 x hx).2, fun hfk => Proofs.ParseEvalCall.fork (hfk ▸ (h2 x hx).1)⟩, h3⟩
+
+/-- `C18_interpolation_failure_no_effect` for a rule tree without `command`, `isdirectory` and file-time `date` conditions
+(`Proofs.asksFree`), in terms of the pure evaluator `evalL`: every call is `openat(O_RDONLY)` / `read` / `close`,
+non-mutating, no `fork`, and after the parse phase only `close`. -/
+theorem C18_interpolation_failure_no_effect_pure (L : Limits) (env : PEnv) (orc : EvalOracles) (expr : Expr) (md : Maildir)
+    (name : Bytes) (st : MainSt) (d : Handle) (content p n : Bytes) (mf : MFlags) (i : Nat) (mh : Match) (msgs0 : Nat → Msg)
+    (hd : md.dirH = some d) (hf : st.files.get md.path name = some content)
+    (hp : pathjoinL L.pathMax md.path name = some p) (hn : strlcpyL L.nameMax1 name = some n)
+    (hmf : flagsParse n = some mf) (hfree : Proofs.asksFree expr = true)
     (hev : (evalL L (Proofs.msgEnv env orc p) (parseMessage content) expr 0 (parseMessage content)
       { ml := [], flags := mf }).1 = .match)
     (hi : (evalL L (Proofs.msgEnv env orc p) (parseMessage content) expr 0 (parseMessage content)
@@ -482,7 +514,7 @@ theorem C18_interpolation_failure_no_effect (L : Limits) (env : PEnv) (orc : Eva
     rw [h] at hev hi hfail
     simp only at hev hi hfail
     subst hev
-    exact processMessageL_interp_error_run L env orc expr md name st d content p n mf est hd hf hp hn hmf h
+    exact processMessageL_interp_error_run_pure L env orc expr md name st d content p n mf est hd hf hp hn hmf hfree h
       (matchesInterpolateL_none_of_entry L (Proofs.msgEnv env orc p) est.ml _ msgs0 i mh hi hfail) orcl
 
 /-- Oracles for the example: every pattern matches its subject with group 0 = group 1 = the first 8 bytes. -/
